@@ -251,23 +251,30 @@ func genSub(r *Rng) *Sub {
 	default:
 		s.L = []int{r.Intn(9), r.Intn(9)}
 	}
+	if r.P(0.2) {
+		s.L = make([]int, 0, 2)
+	}
 	return s
 }
 
 var richShapes = false
 
 func genContainers(r *Rng, x *Rec) {
-	switch r.Intn(3) {
+	switch r.Intn(4) {
 	case 1:
 		x.Tags = []string{}
 	case 2:
 		x.Tags = []string{pick(r, domS), pick(r, domS)}
+	case 3:
+		x.Tags = make([]string, 0, 3) // empty, but with spare capacity (a buf[:0])
 	}
-	switch r.Intn(3) {
+	switch r.Intn(4) {
 	case 1:
 		x.Subs = []*Sub{}
 	case 2:
 		x.Subs = []*Sub{genSub(r), genSub(r)}
+	case 3:
+		x.Subs = append(make([]*Sub, 0, 4), genSub(r)) // len < cap
 	}
 	switch r.Intn(3) {
 	case 1:
